@@ -130,6 +130,8 @@ type Machine struct {
 	inMerge     bool
 	pathNotes   []string
 	clock       int64
+	thr         threadState
+	fsLinks     map[string]string
 
 	BoundsUsed     map[string]int
 	allocLimit     int
@@ -650,9 +652,12 @@ func (m *Machine) call(caller *frame, fn *ssa.Function, args []Value, env []Valu
 	name := fnKey(fn)
 	if fn.Parent() == nil {
 		if in, ok := intrinsics[name]; ok {
-			m.St.Stubs[name]++
 			fr := &frame{m: m, caller: caller, fn: fn}
-			return in(m, fr, args)
+			r := in(m, fr, args)
+			if _, skip := r.(notIntrinsic); !skip {
+				m.St.Stubs[name]++
+				return r
+			}
 		}
 		if fn.Name() == "init" && fn.Signature.Recv() == nil && fn.Pkg != nil && caller != nil && caller.fn.Name() == "init" && caller.fn.Pkg != fn.Pkg {
 			// lazy initialisation: dependencies are initialised on first touch
